@@ -26,7 +26,7 @@ func c07Quality(q, text string) (int, bool) {
 
 func engineFuzzy(ctx *Ctx) {
 	r := vlib.NewRand(ctx.Seed, ctx.Shard, "fuzzy")
-	nDB := ctx.N(240, 2400)
+	nDB := ctx.N(240, 12000)
 	nQ := ctx.Pick(50, 70)
 	for d := 0; d < nDB; d++ {
 		var db *database.Database
